@@ -8,7 +8,7 @@ import c02
 ID = "C03"
 DRIVER = "node"
 MODEL_FILES = ["Model/Base.v", "Model/Parse.v", "Model/Node.v", "Model/Sched.v"]
-THEOREMS = ["C03_set_value_notifies", "C03_set_value_refused_silent", "C03_remove_value_notifies", "C03_inc_value_notifies", "C03_inc_value_refused_silent", "C03_nsubs_watch_key", "C03_nsubs_unwatch_key", "C03_nsubs_unwatch_all", "C03_inbox_sends", "C03_handle_set_notifies", "C03_handle_replicate_set_notifies", "C03_handle_remove_notifies", "C03_handle_increment_notifies", "C03_handle_watch_isolated", "C03_handle_unwatch_isolated", "C03_handle_unwatch_all_isolated", "C03_disconnect_subs", "C03_disconnect_quiet", "C03_final_view_last", "C03_final_view_highest", "C03_stale_subscription_after_db_switch"]
+THEOREMS = ["C03_set_value_notifies", "C03_set_value_refused_silent", "C03_remove_value_notifies", "C03_inc_value_notifies", "C03_inc_value_refused_silent", "C03_nsubs_watch_key", "C03_nsubs_unwatch_key", "C03_nsubs_unwatch_all", "C03_inbox_sends", "C03_handle_set_notifies", "C03_handle_replicate_set_notifies", "C03_handle_remove_notifies", "C03_handle_increment_notifies", "C03_handle_watch_isolated", "C03_handle_unwatch_isolated", "C03_handle_unwatch_all_isolated", "C03_disconnect_subs", "C03_disconnect_quiet", "C03_final_view_last", "C03_final_view_highest", "C03_stale_subscription_after_db_switch", "C03_sched_watch_release", "C03_sched_unwatch_release", "C03_sched_other_release_keeps_watch", "C03_sched_other_session_release", "C03_sched_no_lost_subscription", "C03_sched_no_lost_subscription_closed", "C03_sched_schedule_full"]
 STRENGTH = {t: "proof-unbounded" for t in THEOREMS}
 RULE = ("1-2 writer sessions and 1-2 subscriber sessions issuing watch / unwatch / unwatch-all / disconnect (and reconnect) on the same "
         "and on different keys, over set, set-safe (accepted and refused), increment and remove, replicated writes included; exhaustive "
